@@ -30,7 +30,7 @@ import traceback
 ROOT = os.path.dirname(os.path.dirname(os.path.abspath(__file__)))
 EVIDENCE_DIR = os.path.join(ROOT, "evidence")
 REPLAY_OUT = os.path.join(ROOT, "replays", "out")
-KNOWN_FILE = os.path.join(ROOT, "known_findings.json")
+KNOWN_FILE = os.path.join(ROOT, "known_findings.txt")
 SCHEMA = os.path.join(ROOT, "schemas", "EVIDENCE.schema.json")
 NPROC = int(os.environ.get("VERIF_JOBS", "16"))
 MAX_REPORTED = 12
@@ -148,10 +148,21 @@ def _worker(arg):
 
 
 def load_known(pid):
+    """entries 'known: property=<id> signature=<json> :: <what>' of known_findings.txt for this property"""
+    out = []
     if not os.path.exists(KNOWN_FILE):
-        return []
-    data = json.load(open(KNOWN_FILE))
-    return [e for e in data.get("findings", []) if e.get("property") == pid and e.get("status") == "known"]
+        return out
+    for line in open(KNOWN_FILE, encoding="utf-8"):
+        line = line.strip()
+        if not line.startswith("known:"):
+            continue
+        head, _, what = line[len("known:"):].partition("::")
+        head = head.strip()
+        if not head.startswith("property=%s " % pid):
+            continue
+        sig = json.loads(head.split("signature=", 1)[1])
+        out.append({"property": pid, "signature": sig, "what": what.strip()})
+    return out
 
 
 def sig_matches(entry_sig: dict, sig: dict) -> bool:
